@@ -448,5 +448,7 @@ func init() {
 			wg.Wait()
 		}
 		os.RemoveAll(fresh.dir)
+		// concurrent uploads of the same digest (two targets with identical output content), with a failing Put
+		casRace(c, "C08")
 	}
 }
